@@ -15,7 +15,8 @@ fn meta(oid: u32, t: i64, filled: D4) -> MetaS {
 }
 fn order(ex: usize, inst: usize, cid: u32, st: StS) -> OrderS {
     OrderS {
-        key: key(ex, inst, cid),
+        // two strategies' orders live side by side on one instrument
+        key: KeyS { ex, inst, strat: if cid % 3 == 0 { STRAT + 1 } else { STRAT }, cid },
         buy: cid % 2 == 0,
         price: 1_002_500,
         qty: 20_000,
@@ -36,6 +37,18 @@ fn open(ex: usize, inst: usize, cid: u32) -> OpenS {
 }
 fn cancel(ex: usize, inst: usize, cid: u32, id: Option<u32>) -> CancelS {
     CancelS { key: key(ex, inst, cid), id }
+}
+/// exchange times in ns: clusters less than 1 ms apart, around ms / s boundaries, exact ties, far
+/// past and far future (a comparison at ms or s granularity must show)
+const TIMES: [i64; 16] = [
+    0, 1, 2, 999, 1_000, 999_999, 1_000_000, 1_000_001, 1_999_999, 2_000_000, 999_999_999, 1_000_000_000,
+    1_000_000_001, 86_400_000_000_000, -1, -3_000_000_000_000_000,
+];
+fn pick_time(r: &mut Rng) -> i64 {
+    *r.pick(&TIMES)
+}
+fn inst(ex: usize, base: &str, quote: &str, orders: Vec<OrderS>, pos: Option<PosS>, last: Option<(i64, D4)>) -> InstS {
+    InstS { ex, base: base.into(), quote: quote.into(), orders, pos, last, kind: 0, csize: 0, settle: String::new(), l1: None }
 }
 fn no_close() -> CloseS {
     CloseS::Scripted { cancels: vec![], opens: vec![] }
@@ -80,6 +93,10 @@ fn fixture(trading: bool, link0: Option<LinkS>) -> Spec {
                 ],
                 pos: Some(PosS { buy: true, qty: 15_000, qty_max: 20_000 }),
                 last: Some((10, 1_002_500)),
+                kind: 1,
+                csize: 10,
+                settle: "c".into(),
+                l1: None,
             },
             InstS {
                 ex: 1,
@@ -88,6 +105,10 @@ fn fixture(trading: bool, link0: Option<LinkS>) -> Spec {
                 orders: vec![order(1, 1, 1, StS::Open(meta(21, 3, 0)))],
                 pos: None,
                 last: None,
+                kind: 0,
+                csize: 0,
+                settle: String::new(),
+                l1: None,
             },
         ],
         steps: vec![],
@@ -129,6 +150,7 @@ fn table(em: &mut Emitter) {
                 }),
                 g: GS::default(),
                 close: no_close(),
+                many1: false,
             };
             let tag = format!("table_link{}_kind{}", si, kind);
             for approve in [true, false] {
@@ -139,17 +161,18 @@ fn table(em: &mut Emitter) {
                         op: OpS::Process(EvS::MarketTrade { inst: 1, t: 4, price: 505_000 }),
                         g: algo(approve),
                         close: no_close(),
+                        many1: false,
                     },
                     follow.clone(),
                 ];
                 emit(em, "table", &s, &[&tag, "path_enabled_event"]);
                 // P1: re-enabling generates on that very event
                 let mut s = fixture(false, *stat);
-                s.steps = vec![StepS { op: OpS::Process(EvS::Trading(true)), g: algo(approve), close: no_close() }];
+                s.steps = vec![StepS { op: OpS::Process(EvS::Trading(true)), g: algo(approve), close: no_close(), many1: false }];
                 emit(em, "table", &s, &[&tag, "path_enable_event"]);
                 // P2: generate_algo_orders() called directly
                 let mut s = fixture(false, *stat);
-                s.steps = vec![StepS { op: OpS::Generate, g: algo(approve), close: no_close() }];
+                s.steps = vec![StepS { op: OpS::Generate, g: algo(approve), close: no_close(), many1: false }];
                 emit(em, "table", &s, &[&tag, "path_direct_generate"]);
             }
             // command paths (no risk check). The algo script holds one extra open for link 1.
@@ -158,13 +181,13 @@ fn table(em: &mut Emitter) {
             for trading in [false, true] {
                 let mut s = fixture(trading, *stat);
                 s.steps = vec![
-                    StepS { op: OpS::Process(EvS::Command(cmd.clone())), g: extra.clone(), close: no_close() },
+                    StepS { op: OpS::Process(EvS::Command(cmd.clone())), g: extra.clone(), close: no_close(), many1: false },
                     follow.clone(),
                 ];
                 emit(em, "table", &s, &[&tag, if trading { "path_command_enabled" } else { "path_command_disabled" }]);
             }
             let mut s = fixture(false, *stat);
-            s.steps = vec![StepS { op: OpS::Action(cmd.clone()), g: extra.clone(), close: no_close() }];
+            s.steps = vec![StepS { op: OpS::Action(cmd.clone()), g: extra.clone(), close: no_close(), many1: false }];
             emit(em, "table", &s, &[&tag, "path_direct_action"]);
             // ClosePositions with a scripted ClosePositionsStrategy returning both lists
             let mut s = fixture(true, *stat);
@@ -172,6 +195,7 @@ fn table(em: &mut Emitter) {
                 op: OpS::Process(EvS::Command(CmdS::ClosePositions(FilterS::None))),
                 g: extra.clone(),
                 close: CloseS::Scripted { cancels: cancels.clone(), opens: opens.clone() },
+                many1: false,
             }];
             emit(em, "table", &s, &[&tag, "path_close_scripted"]);
             // P7: disabled => the script must stay unused, state still updated
@@ -181,14 +205,60 @@ fn table(em: &mut Emitter) {
                     op: OpS::Process(EvS::MarketTrade { inst: 0, t: 11, price: 1_010_000 }),
                     g: algo(true),
                     close: no_close(),
+                    many1: false,
                 },
                 StepS {
-                    op: OpS::Process(EvS::CancelResponse { key: key(0, 0, 4), ok: false }),
+                    op: OpS::Process(EvS::CancelResponse { key: key(0, 0, 4), ok: false, err: (kind % 10) as u8 }),
                     g: algo(true),
                     close: no_close(),
+                    many1: false,
                 },
             ];
             emit(em, "table", &s, &[&tag, "path_disabled_event"]);
+        }
+    }
+}
+
+/// three exchanges with the link-less one in the MIDDLE: requests naming the link-less exchange
+/// must fail fatally, requests naming the linked exchange behind it must reach exactly its link
+fn table_middle(em: &mut Emitter) {
+    for middle in [LinkS::Missing, LinkS::Closed, LinkS::Unhealthy] {
+        for (pi, path) in ["algo", "command", "action", "cancel_orders", "close_default"].iter().enumerate() {
+            let mut s = Spec {
+                trading: pi == 0,
+                links: vec![LinkS::Open, middle, LinkS::Open],
+                instruments: (0..3)
+                    .map(|e| {
+                        let mut i = inst(
+                            e,
+                            "a",
+                            "b",
+                            vec![order(e, e, 1, StS::Oif), order(e, e, 11, StS::Open(meta(111, 999_999, 0))), order(e, e, 111, StS::Cif(None))],
+                            Some(PosS { buy: e != 1, qty: 10_000 + 2_500 * e as i64, qty_max: 30_000 }),
+                            Some((1_000_000, 1_000_000 + 2_500 * e as i64)),
+                        );
+                        i.kind = e as u8; // spot, perpetual, future
+                        i.csize = [10_000, 10, 1_000_000][e];
+                        i.settle = ["b", "c", "b"][e].into();
+                        i
+                    })
+                    .collect(),
+                steps: vec![],
+            };
+            let cancels: Vec<CancelS> = (0..3).map(|e| cancel(e, e, 11, Some(111))).collect();
+            let opens: Vec<OpenS> = (0..3).rev().map(|e| open(e, e, 40 + e as u32)).collect();
+            let g = GS { cancels: cancels.clone(), opens: opens.clone(), cmask: vec![true; 3], omask: vec![true; 3] };
+            let (op, gs, close) = match pi {
+                0 => (OpS::Process(EvS::MarketOther { inst: 2, t: 5, kind: 1 }), g, no_close()),
+                1 => (OpS::Process(EvS::Command(CmdS::SendOpens(opens.clone()))), GS::default(), no_close()),
+                2 => (OpS::Action(CmdS::SendCancels(cancels.clone())), GS::default(), no_close()),
+                3 => (OpS::Process(EvS::Command(CmdS::CancelOrders(FilterS::None))), GS::default(), no_close()),
+                _ => (OpS::Action(CmdS::ClosePositions(FilterS::None)), GS::default(), CloseS::Default { strat: 9, cid_base: 1000 }),
+            };
+            // the same step three times
+            s.steps = vec![StepS { op, g: gs, close, many1: false }; 3];
+            let tag = format!("table_middle_{}", path);
+            emit(em, "table", &s, &[&tag]);
         }
     }
 }
@@ -271,10 +341,27 @@ fn gen_gs(r: &mut Rng, sh: &mut Shadow, ly: &Layout, adversarial: bool) -> GS {
     GS { cancels, opens, cmask, omask }
 }
 fn gen_filter(r: &mut Rng, ly: &Layout) -> FilterS {
+    // keys may repeat (twice / three times): a filter is a list, not a set
+    let rep = |r: &mut Rng, mut v: Vec<usize>| {
+        if !v.is_empty() && r.chance(1, 3) {
+            let x = *r.pick(&v);
+            v.push(x);
+            if r.chance(1, 2) {
+                v.insert(0, x);
+            }
+        }
+        v
+    };
     match r.below(3) {
         0 => FilterS::None,
-        1 => FilterS::Exchanges((0..ly.n_ex + 1).filter(|_| r.chance(1, 2)).collect()),
-        _ => FilterS::Instruments((0..ly.inst_ex.len()).filter(|_| r.chance(1, 2)).collect()),
+        1 => {
+            let v = (0..ly.n_ex + 1).filter(|_| r.chance(1, 2)).collect();
+            FilterS::Exchanges(rep(r, v))
+        }
+        _ => {
+            let v = (0..ly.inst_ex.len()).filter(|_| r.chance(1, 2)).collect();
+            FilterS::Instruments(rep(r, v))
+        }
     }
 }
 fn gen_command(r: &mut Rng, sh: &mut Shadow, ly: &Layout, adversarial: bool) -> (CmdS, CloseS) {
@@ -300,10 +387,48 @@ fn gen_command(r: &mut Rng, sh: &mut Shadow, ly: &Layout, adversarial: bool) -> 
     }
 }
 
+/// an L1 book whose volume-weighted mid-price is an exact decimal (equal amounts, or 1:3), or a
+/// one-sided / empty book
+fn gen_l1(r: &mut Rng) -> L1S {
+    let t = pick_time(r);
+    let bp = 2500 * (380 + r.below(20) as i64);
+    let ap = bp + 2500 * (1 + r.below(8) as i64);
+    let a = 1_000 * (1 + r.below(9) as i64);
+    match r.below(6) {
+        0 => L1S { t, bid: None, ask: None },
+        1 => L1S { t, bid: Some((bp, a)), ask: None },
+        2 => L1S { t, bid: None, ask: Some((ap, a)) },
+        3 => L1S { t, bid: Some((bp, a)), ask: Some((ap, 3 * a)) },
+        _ => L1S { t, bid: Some((bp, a)), ask: Some((ap, a)) },
+    }
+}
+
+fn gen_snap(r: &mut Rng, cid: u32) -> SnapS {
+    match r.below(12) {
+        0 => SnapS::Cancelled,
+        1 => SnapS::FullyFilled,
+        2 => SnapS::Expired,
+        3 => SnapS::OpenFailed(r.below(10) as u8),
+        4 => SnapS::Oif,
+        5 => SnapS::Cif(if r.chance(1, 2) { None } else { Some(meta(100 + cid, pick_time(r), 0)) }),
+        _ => SnapS::Open(meta(100 + cid, pick_time(r), *r.pick(&[0, 0, 5_000, 20_000]))),
+    }
+}
+fn gen_snapshot_order(r: &mut Rng, sh: &mut Shadow, ly: &Layout, inst: usize) -> (OrderS, SnapS) {
+    let cid = pick_cid(r, sh, inst);
+    let mut o = order(ly.inst_ex[inst], inst, cid, StS::Oif);
+    o.qty = 20_000;
+    let snap = gen_snap(r, cid);
+    if matches!(snap, SnapS::Open(_) | SnapS::Oif | SnapS::Cif(_)) && !sh.cids[inst].contains(&cid) {
+        sh.cids[inst].push(cid);
+    }
+    (o, snap)
+}
+
 fn gen_event(r: &mut Rng, sh: &mut Shadow, ly: &Layout, adversarial: bool) -> (EvS, CloseS) {
     let n = ly.inst_ex.len();
     let inst = r.below(n as u64) as usize;
-    match r.below(20) {
+    match r.below(28) {
         0 if adversarial => (EvS::Shutdown, no_close()),
         0 | 1 | 2 | 3 | 4 => {
             let (c, cl) = gen_command(r, sh, ly, adversarial);
@@ -311,24 +436,15 @@ fn gen_event(r: &mut Rng, sh: &mut Shadow, ly: &Layout, adversarial: bool) -> (E
         }
         5 | 6 => (EvS::Trading(r.chance(1, 2)), no_close()),
         7 | 8 | 9 | 10 => {
-            let cid = pick_cid(r, sh, inst);
-            let mut o = order(ly.inst_ex[inst], inst, cid, StS::Oif);
-            o.qty = 20_000;
-            let snap = match r.below(8) {
-                0 => SnapS::Cancelled,
-                1 => SnapS::FullyFilled,
-                2 => SnapS::Expired,
-                3 => SnapS::OpenFailed,
-                _ => SnapS::Open(meta(100 + cid, r.range(0, 20), *r.pick(&[0, 0, 5_000, 20_000]))),
-            };
-            if matches!(snap, SnapS::Open(_)) && !sh.cids[inst].contains(&cid) {
-                sh.cids[inst].push(cid);
-            }
-            (EvS::OrderSnapshot { order: o, snap }, no_close())
+            let (order, snap) = gen_snapshot_order(r, sh, ly, inst);
+            (EvS::OrderSnapshot { order, snap }, no_close())
         }
         11 | 12 => {
             let cid = pick_cid(r, sh, inst);
-            (EvS::CancelResponse { key: key(ly.inst_ex[inst], inst, cid), ok: r.chance(1, 2) }, no_close())
+            (
+                EvS::CancelResponse { key: key(ly.inst_ex[inst], inst, cid), ok: r.chance(1, 2), err: r.below(10) as u8 },
+                no_close(),
+            )
         }
         13 | 14 => (
             EvS::Trade {
@@ -342,7 +458,20 @@ fn gen_event(r: &mut Rng, sh: &mut Shadow, ly: &Layout, adversarial: bool) -> (E
         ),
         15 => (EvS::AccountReconnecting, no_close()),
         16 => (EvS::MarketReconnecting, no_close()),
-        _ => (EvS::MarketTrade { inst, t: r.range(0, 30), price: 2500 * (380 + r.below(40) as i64) }, no_close()),
+        17 | 18 => {
+            // full account snapshot: 0-4 order snapshots over ascending instruments (grouped per instrument)
+            let mut orders = vec![];
+            for i in 0..n {
+                for _ in 0..r.below(3) {
+                    orders.push(gen_snapshot_order(r, sh, ly, i));
+                }
+            }
+            (EvS::AccountSnapshot { orders, balances: r.chance(1, 2) }, no_close())
+        }
+        19 => (EvS::BalanceSnapshot { total: 10_000 * (1 + r.below(9) as i64), t: pick_time(r) }, no_close()),
+        20 | 21 | 22 => (EvS::MarketL1 { inst, t: pick_time(r), l1: gen_l1(r) }, no_close()),
+        23 => (EvS::MarketOther { inst, t: pick_time(r), kind: r.below(4) as u8 }, no_close()),
+        _ => (EvS::MarketTrade { inst, t: pick_time(r), price: 2500 * (380 + r.below(40) as i64) }, no_close()),
     }
 }
 
@@ -376,9 +505,9 @@ fn gen_history(r: &mut Rng, max_steps: u64, adversarial: bool) -> Spec {
             sh.cids[j].push(cid);
             let st = match r.below(4) {
                 0 => StS::Oif,
-                1 => StS::Open(meta(100 + cid, r.range(0, 10), *r.pick(&[0, 5_000]))),
+                1 => StS::Open(meta(100 + cid, pick_time(r), *r.pick(&[0, 5_000]))),
                 2 => StS::Cif(None),
-                _ => StS::Cif(Some(meta(100 + cid, r.range(0, 10), 0))),
+                _ => StS::Cif(Some(meta(100 + cid, pick_time(r), 0))),
             };
             orders.push(order(*ex, j, cid, st));
         }
@@ -394,7 +523,11 @@ fn gen_history(r: &mut Rng, max_steps: u64, adversarial: bool) -> Spec {
                     Some(PosS { buy: k == 1, qty: q, qty_max: q + 5_000 })
                 }
             },
-            last: if r.chance(2, 3) { Some((r.range(0, 10), 2500 * (390 + r.below(20) as i64))) } else { None },
+            last: if r.chance(2, 3) { Some((pick_time(r), 2500 * (390 + r.below(20) as i64))) } else { None },
+            kind: r.below(4) as u8,
+            csize: *r.pick(&[10_000, 10, 100, 1_000_000]),
+            settle: if r.chance(1, 2) { assets[qi].into() } else { assets[3 - bi - qi].into() },
+            l1: if r.chance(1, 4) { Some(gen_l1(r)) } else { None },
         });
     }
     let n_links = (n_ex as i64 + *r.pick(&[-1i64, 0, 0, 0, 1])).max(0) as usize;
@@ -419,7 +552,14 @@ fn gen_history(r: &mut Rng, max_steps: u64, adversarial: bool) -> Spec {
                 (OpS::Process(e), cl)
             }
         };
-        steps.push(StepS { op, g, close });
+        let many1 = r.chance(1, 6);
+        steps.push(StepS { op, g, close, many1 });
+        if adversarial && r.chance(1, 8) {
+            // the same operation (and script) three times in a row
+            let last = steps.last().unwrap().clone();
+            steps.push(last.clone());
+            steps.push(last);
+        }
     }
     Spec { trading: r.chance(2, 3), links, instruments, steps }
 }
@@ -433,6 +573,7 @@ fn main() {
             let mut r = Rng::new(args.seed);
             let (n_rand, n_adv, max_steps) = if args.tier == "thorough" { (2000, 1000, 30) } else { (170, 90, 16) };
             table(&mut em);
+            table_middle(&mut em);
             for _ in 0..n_rand {
                 let s = gen_history(&mut r, max_steps, false);
                 emit(&mut em, "random", &s, &[]);
